@@ -52,7 +52,7 @@ def whoObj : String := "/c15/obj"
 
 /-- `check_valid_path (path, current_object, op, w)` with the master following `pol` -/
 def ask (pol : Policy) (w : Bool) (path : CStr) (op : String) : List Ev × Option CStr :=
-  let v := pol.verdict path
+  let v := pol.verdict w path
   ([.valid w path whoObj op v], checkValidPath true v path)
 
 /-- efuns that make one libc call on the approved path -/
@@ -103,7 +103,7 @@ def renameEfun (pol : Policy) (ex : List CStr) (sym : Bool) (a b : CStr) : List 
     | some to =>
       let from' := if from_.length > 1 ∧ from_.getLast? = some '/' then stripTrailSlash from_ else from_
       let (e3, r3) := ask pol false to "file_size"            -- file_size (to)
-      if (pol.verdict to).raises then e1 ++ e2 ++ e3 else     -- an error in the master ends the efun here
+      if (pol.verdict false to).raises then e1 ++ e2 ++ e3 else     -- an error in the master ends the efun here
       let st := match r3 with
         | none => []
         | some q => [Ev.fs "stat" false q]
@@ -153,22 +153,129 @@ def saveEfun (pol : Policy) (ex : List CStr) (a : CStr) : List Ev :=
              (if lookup ex P = some .dir ∨ P.getLast? = some '/' then [.fs "unlink" true tmp] else [])
          else [])
 
-/-- `ed (a)` by an interactive user (`ed_start`: valid_read, `doread`), then the editor command `w b`
-    (`getfn (1)`: a name starting with '/' goes to valid_write, `dowrite`) and `Q` -/
-def edWrite (pol : Policy) (b : CStr) (loaded : Bool) : List Ev :=
-  if b.head? = some '/' then
-    let (e2, r2) := ask pol true b "ed_start"
-    e2 ++ (match r2 with
-      | none => []
-      | some Q => if loaded then [Ev.fs "fopen" true Q] else [])
-  else []
+/-! ### the line editor: `ed (file)` by an interactive user and the session that follows (lib/efuns/ed.c) -/
 
-def edEfun (pol : Policy) (ex : List CStr) (a b : CStr) : List Ev :=
-  let (e1, r1) := ask pol false a "ed_start"
-  match r1 with
-  | none => e1 ++ edWrite pol b false
-  | some P =>                                       -- `w` writes only a non-empty buffer (deflt (1, P_LASTLN))
-    e1 ++ Ev.fs "fopen" false P :: edWrite pol b (decide (lookup ex P = some .file))
+/-- commands of an editing session (the ones that deal with files, plus text input and quitting).
+    An empty argument is "no file name given". -/
+inductive EdCmd where
+  | start (file : CStr)      -- the efun ed (file): ed_start
+  | a (text : CStr)          -- `a`, one line of text, `.`
+  | e (arg : CStr) | E (arg : CStr) | f (arg : CStr) | r (arg : CStr)
+  | w (arg : CStr) | W (arg : CStr) | x | q | Q
+  deriving Repr, DecidableEq
+
+structure EdSt where
+  active : Bool := false
+  fname : CStr := []                   -- P_FNAME: the stored file name (as approved: no leading slash)
+  nlines : Nat := 0                    -- P_LASTLN
+  changed : Bool := false              -- P_FCHANGED
+  files : List (CStr × Nat) := []      -- files written during the session: path ↦ number of lines
+  deriving Repr
+
+/-- number of lines `doread` gets out of `p` (`none`: cannot be opened) -/
+def edLines (st : EdSt) (ex : List CStr) (p : CStr) : Option Nat :=
+  match st.files.find? (·.1 = p) with
+  | some (_, n) => some n
+  | none => match lookup ex p with
+    | some .file => some 1             -- every fixture file has one line
+    | some .dir => some 0              -- fopen (dir, "r") succeeds, nothing can be read
+    | none => none
+
+/-- can `fopen (p, "w" / "a")` succeed? -/
+def edWritable (st : EdSt) (ex : List CStr) (p : CStr) : Bool :=
+  (st.files.any (·.1 = p)) || (lookup ex (parentDir p) = some .dir && lookup ex p ≠ some .dir)
+
+/-- `getfn (writeflg)`: the name given, else "/" + stored name; a name that does not start with '/' goes through
+    the master's make_path_absolute (the verification master answers "/d/" + name); then
+    `check_valid_path (file, current_editor, "ed_start", writeflg)` — ALWAYS, also for the stored name. -/
+def edGetfn (pol : Policy) (st : EdSt) (w : Bool) (arg : CStr) : List Ev × Option CStr :=
+  let file := if arg = [] then '/' :: st.fname else arg
+  let file := if file.head? = some '/' then file else str "/d/" ++ file
+  ask pol w file "ed_start"
+
+/-- the libc call of a command that got its file name from `getfn` (`io`: does the command reach doread/dowrite) -/
+def edIo (r : Option CStr) (io w : Bool) : List Ev :=
+  match r with
+  | none => []
+  | some p => if io then [.fs "fopen" w p] else []
+
+/-- `E name`: getfn (0), clear the buffer, read the file, remember the name -/
+def edOpen (pol : Policy) (ex : List CStr) (st : EdSt) (arg : CStr) : List Ev × EdSt :=
+  let (e, r) := edGetfn pol st false arg
+  (e ++ edIo r true false,
+   match r with
+   | none => st
+   | some p => { st with fname := p, changed := false, nlines := (edLines st ex p).getD 0 })
+
+/-- one command: the events of its segment (after the `call` line) and the new state -/
+def edStep (pol : Policy) (ex : List CStr) (st : EdSt) (c : EdCmd) : List Ev × EdSt :=
+  match c with
+  | .start file =>
+    let (e, r) := ask pol false file "ed_start"
+    (e ++ edIo r true false,
+     { st with active := true, fname := r.getD [], changed := false,
+               nlines := match r with
+                 | none => 0
+                 | some p => (edLines st ex p).getD 0 })
+  | .a _ => ([], { st with nlines := st.nlines + 1, changed := true })
+  | .e arg => if st.changed then ([], st) else edOpen pol ex st arg     -- "File has been changed."
+  | .E arg => edOpen pol ex st arg
+  | .f arg =>
+    let (e, r) := edGetfn pol st false arg
+    (e, match r with
+      | none => st
+      | some p => if arg = [] then st else { st with fname := p })
+  | .r arg =>
+    let (e, r) := edGetfn pol st false arg
+    (e ++ edIo r true false,
+     match r with
+     | none => st
+     | some p => match edLines st ex p with
+       | none => st
+       | some n => { st with nlines := st.nlines + n, changed := true })
+  | .w arg =>
+    let (e, r) := edGetfn pol st true arg
+    (e ++ edIo r (decide (st.nlines > 0)) true,
+     match r with
+     | none => st
+     | some p => if st.nlines > 0 ∧ edWritable st ex p then
+         { st with changed := false, files := (p, st.nlines) :: st.files } else st)
+  | .W arg =>
+    let (e, r) := edGetfn pol st true arg
+    (e ++ edIo r (decide (st.nlines > 0)) true,
+     match r with
+     | none => st
+     | some p => if st.nlines > 0 ∧ edWritable st ex p then
+         { st with changed := false, files := (p, (edLines st ex p).getD 0 + st.nlines) :: st.files } else st)
+  | .x =>
+    let (e, r) := edGetfn pol st true []
+    (e ++ edIo r true true,
+     match r with
+     | none => st
+     | some p => if edWritable st ex p then { st with active := false, files := (p, st.nlines) :: st.files } else st)
+  | .q => ([], if st.changed then st else { st with active := false })
+  | .Q => ([], { st with active := false })
+
+def EdCmd.callArgs : EdCmd → List CStr
+  | .start y => [str "ed", y]
+  | .a y => [str "a", y]
+  | .e y => [str "e", y] | .E y => [str "E", y] | .f y => [str "f", y] | .r y => [str "r", y]
+  | .w y => [str "w", y] | .W y => [str "W", y]
+  | .x => [str "x", []] | .q => [str "q", []] | .Q => [str "Q", []]
+
+/-- is the command executed?  `ed ()` on an active session is an error before anything happens; editor
+    commands need a session -/
+def edRuns (st : EdSt) : EdCmd → Bool
+  | .start _ => !st.active
+  | _ => st.active
+
+/-- a whole session: every command that is executed is one `call ed` segment -/
+def edSession (pol : Policy) (ex : List CStr) : EdSt → List EdCmd → List Ev
+  | _, [] => []
+  | st, c :: cs =>
+    if edRuns st c then
+      .call "ed" whoObj c.callArgs :: (edStep pol ex st c).1 ++ edSession pol ex (edStep pol ex st c).2 cs
+    else edSession pol ex st cs
 
 /-- one efun call -/
 def efunEvents (pol : Policy) (ex : List CStr) (efun : String) (a b : CStr) : List Ev :=
@@ -194,7 +301,7 @@ def efunEvents (pol : Policy) (ex : List CStr) (efun : String) (a b : CStr) : Li
   | "link" => .note s!"valid_link {showP a} {showP b}" :: renameEfun pol ex true a b   -- master valid_link first
   | "cp" => cpEfun pol ex a b
   | "save_object" => saveEfun pol ex a
-  | "ed" => edEfun pol ex a b
+  | "ed" => (edStep pol ex {} (.start a)).1              -- the efun itself; sessions: `edSession`
   | _ => [.note s!"badefun {efun}"]
 
 def Ev.isValid : Ev → Bool
@@ -207,6 +314,11 @@ def Ev.isValid : Ev → Bool
 def sysEvents (masterAbsent : Bool) (pol : Policy) (ex : List CStr) (efun : String) (a b : CStr) : List Ev :=
   if masterAbsent then (efunEvents .allow ex efun a b).filter (fun e => !e.isValid)
   else efunEvents pol ex efun a b
+
+/-- an editing session under either kind of master -/
+def sysSession (masterAbsent : Bool) (pol : Policy) (ex : List CStr) (cmds : List EdCmd) : List Ev :=
+  if masterAbsent then (edSession .allow ex {} cmds).filter (fun e => !e.isValid)
+  else edSession pol ex {} cmds
 
 /-! ### compiler: load_object, #include, inherit -/
 
@@ -240,15 +352,13 @@ def includeEvents (base name : CStr) : List Ev :=
   let (l, ok) := loadEvents ex base
   l ++ (if ok then includeOpens ex base name else [])
 
+/-- `strip_name (inherit_file, inhbuf, sizeof inhbuf)`, on failure `strcpy (inhbuf, inherit_file)` -/
+def inhName (name : CStr) : CStr := (stripName name NV.Gen.C15.maxObjectNameSize).getD name
+
 def inheritEvents (base name : CStr) : List Ev :=
-  let ex := [base]
-  let (l, ok) := loadEvents ex base
-  if !ok then l
+  if !(loadEvents [base] base).2 then (loadEvents [base] base).1
   else
-    let inh := match stripName name NV.Gen.C15.maxObjectNameSize with           -- strip_name (inherit_file, inhbuf, …) else strcpy
-      | some s => s
-      | none => name
-    let (l2, ok2) := loadEvents ex inh
-    l ++ l2 ++ (if ok2 then (loadEvents ex base).1 else [])
+    (loadEvents [base] base).1 ++ (loadEvents [base] (inhName name)).1 ++
+      (if (loadEvents [base] (inhName name)).2 then (loadEvents [base] base).1 else [])
 
 end NV.C15
